@@ -10,6 +10,17 @@
     accepted iff k+1 ≤ max_nesting_depth (the real parsers and encoders of all five formats are compared
     with "accept at the limit, refuse one beyond" on every run for limits 0…100 and three container shapes).
 
+  * the CBOR decoder MODEL (JV.Model.CborParser = cbor_parser.hpp, tied to the real decoder by differential testing, C07), for EVERY
+    input: a delivered value is nested at most max_nesting_depth deep (`cbor_value_depth_le_limit`); on k definite one-element
+    arrays, k one-member maps and k indefinite arrays around a scalar the limit is exact — accepted iff k ≤ max_nesting_depth,
+    otherwise exactly max_nesting_depth_exceeded, at any position in a document (`cbor_depth_limit_exact`, `cbor_depth_limit_inner`):
+    the test is `++nesting_depth_ > max_nesting_depth_`, accept AT the limit, refuse one above;
+  * claimed lengths need data (same model): the weight of a delivered value — one per node plus every string byte — is at most
+    the number of input bytes consumed (`cbor_output_le_input`), so what the visitor is handed is proportional to the bytes
+    actually supplied; a definite string header claiming n bytes over fewer remaining bytes is unexpected_eof
+    (`cbor_claimed_length_needs_data`), a definite array / map header claiming n elements / members over fewer than n / 2·n
+    remaining bytes is never accepted (`cbor_claimed_count_needs_data`), whatever n < 2^64 is.
+
   Observed, not proved (runtime facts no Lean model exhibits): actual heap footprint (counting operator new
   around the real decoders on claimed lengths 2^20…2^62, buffer/iterator/stream sources), actual stack use of
   destroy / copy / compare / dump on values nested 10^3…10^6 deep, UBJSON max_items on every container form.
@@ -17,6 +28,8 @@
 import JV.Proofs.ReadLedger
 import JV.Proofs.JsonDepth
 import JV.Proofs.JsonParserDepth
+import JV.Proofs.CborParserDepth
+import JV.Proofs.CborParserClaims
 namespace JV.Props.C10
 open JV Model.ReadLedger Spec.Rfc8259
 
@@ -58,5 +71,81 @@ theorem json_parser_limit_exact (cfg : Model.JsonParser.Cfg) (s : Model.JsonPars
     (s.level < cfg.maxDepth → (Model.JsonParser.beginArray cfg s).level = s.level + 1 ∧ (Model.JsonParser.beginObject cfg s).level = s.level + 1) :=
   ⟨fun h => ⟨Model.JsonParser.beginArray_at_limit cfg s h, Model.JsonParser.beginObject_at_limit cfg s h⟩,
    fun h => ⟨(Model.JsonParser.beginArray_below_limit cfg s h).2, (Model.JsonParser.beginObject_below_limit cfg s h).2⟩⟩
+
+/-! ### the CBOR decoder model (cbor_parser.hpp) -/
+
+/-- whatever the input: a value the decoder delivers is nested at most `max_nesting_depth` deep -/
+theorem cbor_value_depth_le_limit (d : Nat) (bs : Bytes) (v : Model.CborParser.Item) (rest : Bytes)
+    (h : Model.CborParser.decode d bs = .ok v rest) : v.depth ≤ d :=
+  Model.CborParser.decode_depth_le h
+
+/-- … also from inside a document: delivered from level `depth ≤ max_nesting_depth`, at most `max_nesting_depth - depth` deeper -/
+theorem cbor_value_depth_le_limit_inner (d fuel depth : Nat) (bs : Bytes) (v : Model.CborParser.Item) (rest : Bytes)
+    (hd : depth ≤ d) (h : Model.CborParser.item d fuel depth bs = .ok v rest) : depth + v.depth ≤ d :=
+  (Model.CborParser.depth_all d fuel).1 depth bs v rest hd h
+
+/-- the limit is exact on three container shapes around a one-byte integer `n`: k definite one-element arrays (0x81…), k definite
+    one-member maps with the empty text key (0xa1 0x60 …), k indefinite arrays (0x9f … 0xff): accepted iff k ≤ max_nesting_depth,
+    and refused with exactly max_nesting_depth_exceeded one above -/
+theorem cbor_depth_limit_exact (d k n : Nat) (hn : n < 24) :
+    Model.CborParser.decode d (Model.CborParser.nestArr k [n]) =
+      (if k ≤ d then .ok (Model.CborParser.nestArrV k (.uint n)) [] else .fail (.err .maxNestingDepthExceeded)) ∧
+    Model.CborParser.decode d (Model.CborParser.nestMap k [n]) =
+      (if k ≤ d then .ok (Model.CborParser.nestMapV k (.uint n)) [] else .fail (.err .maxNestingDepthExceeded)) ∧
+    Model.CborParser.decode d (Model.CborParser.nestIndef k [n]) =
+      (if k ≤ d then .ok (Model.CborParser.nestArrV k (.uint n)) [] else .fail (.err .maxNestingDepthExceeded)) :=
+  ⟨Model.CborParser.decode_nestArr d n hn k, Model.CborParser.decode_nestMap d n hn k, Model.CborParser.decode_nestIndef d n hn k⟩
+
+/-- … at any position inside a document, with `depth` containers already open and anything behind -/
+theorem cbor_depth_limit_inner (d k n depth fuel : Nat) (tail : Bytes) (hn : n < 24) (hf : 2 * k + 1 ≤ fuel) (hd : depth ≤ d) :
+    Model.CborParser.item d fuel depth (Model.CborParser.nestArr k [n] ++ tail) =
+      (if depth + k ≤ d then .ok (Model.CborParser.nestArrV k (.uint n)) tail else .fail (.err .maxNestingDepthExceeded)) ∧
+    Model.CborParser.item d fuel depth (Model.CborParser.nestMap k [n] ++ tail) =
+      (if depth + k ≤ d then .ok (Model.CborParser.nestMapV k (.uint n)) tail else .fail (.err .maxNestingDepthExceeded)) ∧
+    Model.CborParser.item d fuel depth (Model.CborParser.nestIndef k [n] ++ tail) =
+      (if depth + k ≤ d then .ok (Model.CborParser.nestArrV k (.uint n)) tail else .fail (.err .maxNestingDepthExceeded)) :=
+  ⟨Model.CborParser.nestArr_item d n hn tail k fuel depth hf hd, Model.CborParser.nestMap_item d n hn tail k fuel depth hf hd,
+   Model.CborParser.nestIndef_item d n hn k fuel depth tail hf hd⟩
+
+/-- the shapes are what they are said to be, and the values they decode to are nested exactly k deep: the bound of
+    `cbor_value_depth_le_limit` is attained at k = max_nesting_depth -/
+theorem cbor_nest_shapes (k n : Nat) :
+    Model.CborParser.nestArr k [n] = List.replicate k 0x81 ++ [n] ∧
+    Model.CborParser.nestIndef k [n] = List.replicate k 0x9f ++ [n] ++ List.replicate k 0xff ∧
+    (Model.CborParser.nestArrV k (.uint n)).depth = k ∧ (Model.CborParser.nestMapV k (.uint n)).depth = k :=
+  ⟨Model.CborParser.nestArr_eq k [n], Model.CborParser.nestIndef_eq k [n],
+   by simp [Model.CborParser.nestArrV_depth, Model.CborParser.Item.depth],
+   by simp [Model.CborParser.nestMapV_depth, Model.CborParser.Item.depth]⟩
+
+/-- what is delivered is paid for by input: one per node plus every string byte, at most the number of bytes consumed -/
+theorem cbor_output_le_input (d : Nat) (bs : Bytes) (v : Model.CborParser.Item) (rest : Bytes)
+    (h : Model.CborParser.decode d bs = .ok v rest) : v.weight + rest.length ≤ bs.length :=
+  Model.CborParser.decode_weight_le h
+
+/-- a definite byte (major 2) / text (major 3) string header claiming `n` bytes, followed by fewer than `n` bytes: unexpected_eof,
+    for every n < 2^64 (the header is the one the encoder writes: shortest form) -/
+theorem cbor_claimed_length_needs_data (d major n : Nat) (hm : major = 2 ∨ major = 3) (hn : n < 2 ^ 64) (short : Bytes)
+    (h : short.length < n) :
+    Model.CborParser.decode d (Model.Cbor.writeHead major n ++ short) = .fail (.err .unexpectedEof) :=
+  Model.CborParser.string_claim_eof d major n hm hn short h _ 0
+
+/-- a definite array header claiming `n` elements over fewer than `n` bytes, a definite map header claiming `n` members over
+    fewer than `2·n` bytes: never accepted (every element costs at least one byte) -/
+theorem cbor_claimed_count_needs_data (d n : Nat) (hn : n < 2 ^ 64) (short : Bytes) (v : Model.CborParser.Item) (rest : Bytes) :
+    (short.length < n → Model.CborParser.decode d (Model.Cbor.writeHead 4 n ++ short) ≠ .ok v rest) ∧
+    (short.length < 2 * n → Model.CborParser.decode d (Model.Cbor.writeHead 5 n ++ short) ≠ .ok v rest) :=
+  ⟨fun h => Model.CborParser.array_claim_refused d n hn short h _ 0 v rest,
+   fun h => Model.CborParser.map_claim_refused d n hn short h _ 0 v rest⟩
+
+/-! non-vacuity: at the limit, one above, and a 2^62-byte claim over two bytes -/
+example : Model.CborParser.nestIndef 2 [7] = [0x9f, 0x9f, 7, 0xff, 0xff] := by decide
+example : Model.CborParser.nestMap 1 [7] = [0xa1, 0x60, 7] := by decide
+example : Model.CborParser.decode 2 [0x81, 0x81, 7] = .ok (.arr [.arr [.uint 7]]) [] := by rfl
+example : Model.CborParser.decode 1 [0x81, 0x81, 7] = .fail (.err .maxNestingDepthExceeded) := by rfl
+example : Model.CborParser.decode 1 [0x9f, 7, 0xff] = .ok (.arr [.uint 7]) [] := by rfl
+example : Model.CborParser.decode 0 [0xa1, 0x60, 7] = .fail (.err .maxNestingDepthExceeded) := by rfl
+example : Model.CborParser.Err.maxNestingDepthExceeded.code = 10 ∧ Model.CborParser.Err.unexpectedEof.code = 1 := ⟨rfl, rfl⟩
+example : Model.Cbor.writeHead 2 (2 ^ 62) ++ [1, 2] = [0x5b, 0x40, 0, 0, 0, 0, 0, 0, 0, 1, 2] := by decide
+example : Model.CborParser.decode 8 [0x5b, 0x40, 0, 0, 0, 0, 0, 0, 0, 1, 2] = .fail (.err .unexpectedEof) := by rfl
 
 end JV.Props.C10
